@@ -505,6 +505,37 @@ pub fn run(ctx: &RunCtx) -> Outcome {
         let _ = i;
         o.stats.nontrivial_add(*h, 1);
     }
+    if !quick && o.violations.is_empty() && o.infra_error.is_none() {
+        // coverage-guided campaign on raw bytes (ASan, debug assertions), same oracle inside the target
+        let mut seeds: Vec<Vec<u8>> = corpus().into_iter().step_by(5).take(400).map(|s| s.into_bytes()).collect();
+        seeds.extend(nesting_inputs().into_iter().filter(|s| s.len() < 400).take(40).map(|s| s.into_bytes()));
+        match crate::fuzzrun::campaign(ctx, "fuzz_compile", 16, 60_000, 96, &seeds) {
+            Ok(c) => {
+                o.stats.evaluations += c.runs_done;
+                o.extra.insert("fuzz".into(), c.evidence);
+                for a in c.artifacts {
+                    let data = std::fs::read(&a).unwrap_or_default();
+                    match std::str::from_utf8(&data) {
+                        Ok(s) => match check_compile(s) {
+                            Err(f) => {
+                                let small = shrink_string(s, &f.kind);
+                                let f2 = check_compile(&small).err().unwrap_or(f);
+                                o.violations.push(Violation { case: json!({"input": small, "from_fuzz_artifact": a.display().to_string()}), fail: f2 });
+                                break;
+                            }
+                            Ok(_) => {
+                                // crashes only in the sanitizer build: re-run in a child process to classify
+                                o.violations.push(Violation { case: json!({"input": s, "crash": true, "from_fuzz_artifact": a.display().to_string()}), fail: Fail::new("crash", "Regex::new returns", "libFuzzer artifact (crash / sanitizer report / timeout) that the in-process oracle does not reproduce") });
+                                break;
+                            }
+                        },
+                        Err(_) => {}
+                    }
+                }
+            }
+            Err(e) => o.infra_error = Some(e),
+        }
+    }
     o
 }
 
